@@ -129,9 +129,15 @@
       (i) with nothing of `p` buffered or held, as single-step lemmas that keep `WRel (BRp p)`:
       `proj_deliver_hidden_conn_closeW_p` (the worker is `p`'s current worker, normal mode, syn consumed, `p` not in
       retry mode: the `Choice.closeW w` step, `canClose` holds) and `proj_deliver_hidden_conn_closing_p` (the worker
-      is already closing: no step); worker level `resp_hidden_conn`.  They are NOT wired into `delOK` / `projChoice` /
-      `projRun_sound` / `log_order_every_partition_checked` (those are unchanged and still exclude the case), and
-      there is no instance of the two lemmas on a concrete run (only the run `exForeignConn` itself is evaluated).
+      is already closing: no step); worker level `resp_hidden_conn`.  Props/C02multiK2.lean WIRES THEM IN, as widened
+      versions next to the unchanged `delOK` / `projOK` / `projChoice` / `projRun`: `hidConnOK`, `delOK2` (= `delOK`
+      or `hidConnOK`), `stepOK2`, `projOK2`, `projChoice2` (a hidden connection error is `closeW w` when the worker
+      is not closing, no step when it is), `proj_step_c2`, `projRun2`, `projRun2_sound`, `projSplitOK2` and
+      `log_order_every_partition_checked2` (same statement as `..._checked` with the 2-versions); a connection error
+      for a VISIBLE set that is empty for `p` is covered too (`proj_deliver_visible_conn_j`, Props/C02multiC2.lean).
+      `exForeignConn` is outside `projOK 2 0`, inside `projOK2 2 0`; its projection has 9 steps ending in `closeW`,
+      and LogOrder for both of its partitions is obtained by `decide` from the choice list; `exTwo` and `exConn`
+      satisfy the 2-versions as well.
       Still no simulation step: (i) in normal mode when the worker is not `p`'s current worker or `p` is in retry
       mode there (`BRp` equates the closing modes), (i) with messages of `p` buffered/held, and (ii) - these need a
       weaker `BRp` or a new choice in `Model.Pipeline` - not done.
